@@ -309,6 +309,30 @@ def run(prog: Program, L: Ledger) -> None:
             u, cell = left.left, left.right
             uok = isinstance(u, ast.Call) and norm(u.func) == "context.rng.uniform" and [norm(a) for a in u.args[:2]] == ["0", "1"] and norm(u.args[2] if len(u.args) > 2 else [k.value for k in u.keywords if k.arg == "size"][0]).replace(" ", "") == "(1,3)"
             cok = norm(cell) in ("context.atoms.cell.array", "context.atoms.get_cell().array", "context.atoms.cell", "context.atoms.get_cell()", "np.asarray(context.atoms.cell)")
+            if not cok and isinstance(cell, ast.Attribute) and isinstance(cell.value, ast.Name) and cell.value.id == "self":
+                # a cell matrix kept on the operation: accepted when every value stored into the attribute (None apart) is the
+                # cell of the context's atoms — whether the kept copy is still fresh is rule M's question
+                CELLS = ("context.atoms.cell.array", "context.atoms.get_cell().array", "context.atoms.cell", "context.atoms.get_cell()")
+                vals_ = []
+                # (private helpers are inlined in the flat form of calculate, so their stores are seen with the caller's names)
+                for m_node in [f.node] + [m_.node for c_ in prog.mro_classes(tr_ci) for m_ in c_.methods.values() if m_.name not in ("__init__", "calculate") and not m_.name.startswith("_")]:
+                    for _once in (0,):
+                        inl_m = Inliner(m_node)
+                        for st_ in walk_no_nested(m_node):
+                            if isinstance(st_, (ast.Assign, ast.AnnAssign)) and getattr(st_, "value", None) is not None:
+                                tg_ = st_.targets if isinstance(st_, ast.Assign) else [st_.target]
+                                if any(isinstance(t_, ast.Attribute) and isinstance(t_.value, ast.Name) and t_.value.id == "self" and t_.attr == cell.attr for t_ in tg_):
+                                    v_ = st_.value
+                                    if isinstance(v_, ast.Constant) and v_.value is None:
+                                        continue
+                                    for _k in range(3):
+                                        if isinstance(v_, ast.Call) and norm(v_.func) in ("np.array", "np.asarray", "numpy.array", "np.copy") and v_.args:
+                                            v_ = v_.args[0]
+                                        elif isinstance(v_, ast.Call) and isinstance(v_.func, ast.Attribute) and v_.func.attr == "copy" and not v_.args:
+                                            v_ = v_.func.value
+                                    vals_.append(norm(inl_m.inline(v_)) in CELLS)
+                if vals_ and all(vals_):
+                    cok = True
             rok = norm(right) in ("context.atoms.positions[context._moving_indices].mean(axis=0)", "np.mean(context.atoms.positions[context._moving_indices], axis=0)",
                                   "context.atoms.get_positions()[context._moving_indices].mean(axis=0)")
             why_not = ""
